@@ -1,6 +1,8 @@
 import PsyVerif.Model.ExprIO
 import PsyVerif.Gen.FortranOps
 import PsyVerif.Lemmas.ExprIOMain
+import PsyVerif.Lemmas.ExprIOFuel
+import PsyVerif.Lemmas.ExprIOAdj
 /-! # C02 — Written expressions keep the operation order of the PSyIR tree
 
 Model: `PsyVerif/Model/ExprIO.lean`.  `render .narrow` is the writer WITH
@@ -13,14 +15,30 @@ repair without editing existing tests — a `+`/`-` sign in front of `*` `/`, a 
 condition `exposed .top e = false`.  `P`/`parse` is the Fortran 2008 expression grammar R701–R722; parentheses are
 dropped as `_parenthesis_handler` does.
 
-Quantification: all trees of unbounded depth.  What is proved for ALL trees of the
-operator / unary-operator / literal / scalar-reference fragment (`opFrag`): the written token list
-is accepted by the grammar and denotes `norm e` — the original tree, except that a literal is
-replaced by what the reader makes of its text (a leading sign becomes a unary operation, the
-precision is re-derived from exponent letter and kind suffix).  For trees whose literals are
-canonical this is the original tree itself.  Array/structure accesses and intrinsic calls are in
-the model, the driver and the correspondence check; the induction does not cover them yet
-(`C02_statement` is the full statement). -/
+Quantification: ALL trees of the model's `Expr` type that the writer accepts (`wf .expr e`), of
+unbounded depth: literals of every kind/precision form, unary and binary operations, scalar references,
+array references with subscript lists, structure/member chains (with subscripts at any part), intrinsic
+calls with positional and named arguments.
+
+PROVED (kernel-checked, for all such trees with `exposed .top e = false`):
+* `C02_roundtrip_partial`: the driver's `parse` (fuel `12*(tokens+1)`) of the written token list
+  returns `norm e` — the original tree, except that a literal is replaced by what the reader makes
+  of its text (a leading sign becomes a unary operation, the precision is re-derived from exponent
+  letter and kind suffix); `C02_roundtrip_exact_partial`: with canonical literals it returns `e` itself;
+  `C02_roundtrip_all_fuel_partial`: the same for every sufficiently large fuel; `C02_roundtrip_in_context`.
+* `C02_no_bad_adjacent`: the written token list has no two adjacent operators where the standard
+  forbids it; `C02_standard_partial` combines both.  For the wide rule both hold unconditionally
+  (`C02_roundtrip_wide`, `C02_no_bad_adjacent_wide`).
+* `C02_fuel_bound`: whenever `P` succeeds with some fuel, `parse` (fixed fuel) returns that result.
+* the extracted operator/precedence tables equal the model's (`gen_*`), by `decide`.
+* witnesses of every remaining defect class (`narrow_*`, `pinned_*`, literal findings) and the exact
+  characterisations `C02_exposed_class`, `C02_canonical_literals`.
+
+EVALUATED ONLY (by the harness on every run, not proved): that `render .narrow` equals the real
+`FortranWriter` output token by token, that `parse` agrees with the real `FortranReader` (fparser2)
+on every written text, the lexing of names/numbers/strings into ids, and the property itself on the
+real code (re-read tree `==` original).  Not modelled: array sections (`Range`), user-function
+`Call`s, character values containing a newline. -/
 namespace C02
 
 def optoks : List OpTok :=
@@ -32,10 +50,6 @@ def tokIdx (o : OpTok) : Nat := (optoks ++ [OpTok.bad]).idxOf o
 
 /-- the parser, run with any sufficiently large fuel, consumes all of `ts` and returns `e` -/
 def ParsesTo (ts : List Tok) (e : Expr) : Prop := ∃ f0, ∀ f, f0 ≤ f → P f (.expr 0) ts = some (e, [])
-
-theorem parse_of_fuel {ts e f} (h : P f (.expr 0) ts = some (e, [])) (hf : f ≤ fuelFor ts) :
-    parse ts = some e := by
-  simp [parse, P_mono_le h hf]
 
 theorem norm_of_canonical : ∀ e, litsCanonical e = true → norm e = some e := by
   intro e
@@ -61,62 +75,87 @@ def exRel : Expr := .bin .eq (.bin .lt va vb) vc
 
 /-! ## The property -/
 
-/-- Full statement (all constructs of the model, fixed writer): whatever the writer accepts is
-written as a sentence of the grammar and reads back as `norm e`; with canonical literals as `e`. -/
+/-- Full statement (fixed writer, no side condition): whatever the writer accepts is written as a
+sentence of the grammar and reads back as `norm e`; with canonical literals as `e`. -/
 def C02_statement : Prop :=
-  ∀ e ne, wf .expr e = true → norm e = some ne → ParsesTo (render .narrow .top e) ne
+  ∀ e ne, wf .expr e = true → norm e = some ne → parse (render .narrow .top e) = some ne
 
 /-- The full statement is FALSE of the narrow-fixed writer: `(-a)*b` is written `-a * b`, which the
 grammar reads as `-(a*b)`. -/
 theorem C02_statement_counterexample : ¬ C02_statement := by
   intro h
-  obtain ⟨f0, hf⟩ := h exLead exLead (by decide) (by decide)
-  have h1 := hf (max f0 200) (Nat.le_max_left _ _)
-  have h2 : P 200 (.expr 0) (render .narrow .top exLead) = some (.un .minus (.bin .mul va vb), []) := by
-    decide
-  have h3 := P_mono_le h2 (Nat.le_max_right f0 200)
-  rw [h3] at h1
-  exact absurd h1 (by decide)
+  have := h exLead exLead (by decide) (by decide)
+  revert this
+  decide
 
-/-- **Round trip, fixed writer, operator fragment, unbounded depth.**  Proved by induction with the
-follow-set strengthening `Good` (Lemmas/ExprIORules.lean): at every position the writer's
-parenthesisation tests leave a node bare only if its grammar level is at least the level the
-position requires (`need_le_lvl`). -/
-theorem C02_roundtrip_partial (e ne : Expr) (hf : opFrag e = true) (hw : wf .expr e = true)
+/-- **Fuel bound.**  The fuel the driver gives `parse` is always sufficient: a result obtained with
+any fuel is the result of `parse`. -/
+theorem C02_fuel_bound {f ts e} (h : P f (.expr 0) ts = some (e, [])) : parse ts = some e :=
+  parse_complete h
+
+theorem parse_of_parsesTo {ts e} (h : ParsesTo ts e) : parse ts = some e := by
+  obtain ⟨f0, hf⟩ := h
+  exact parse_complete (hf f0 (Nat.le_refl _))
+
+/-- Round trip for every sufficiently large fuel (all constructs, unbounded depth).  Proved by
+induction over all sorts of the encoding (`good_sorted`) with the follow-set strengthening `Good`:
+at every position the writer's parenthesisation tests leave a node bare only if its grammar level is
+at least the level the position requires (`need_le_lvl`); `render_narrow_eq_wide` transfers the
+result from the wide rule to the narrow writer outside the class `exposed`. -/
+theorem C02_roundtrip_all_fuel_partial (e ne : Expr) (hw : wf .expr e = true)
     (hx : exposed .top e = false) (hn : norm e = some ne) : ParsesTo (render .narrow .top e) ne := by
   rw [render_narrow_eq_wide e .top hx]
-  have g := good_render e hf hw ne hn .top trivial
+  have g := good_render e hw ne hn .top trivial
   have := g.1 0 [] (Nat.zero_le _) trivial
   simp only [List.append_nil] at this
   exact this.all_fuel
 
-/-- With canonical literals the re-read tree is structurally the original tree. -/
-theorem C02_roundtrip_exact_partial (e : Expr) (hf : opFrag e = true) (hw : wf .expr e = true)
-    (hx : exposed .top e = false) (hc : litsCanonical e = true) : ParsesTo (render .narrow .top e) e :=
-  C02_roundtrip_partial e e hf hw hx (norm_of_canonical e hc)
+/-- **Round trip** (narrow-fixed writer, all constructs, unbounded depth, the driver's `parse`). -/
+theorem C02_roundtrip_partial (e ne : Expr) (hw : wf .expr e = true)
+    (hx : exposed .top e = false) (hn : norm e = some ne) :
+    parse (render .narrow .top e) = some ne :=
+  parse_of_parsesTo (C02_roundtrip_all_fuel_partial e ne hw hx hn)
 
-/-- Standard conformance, as far as proved: the written text of every accepted, readable tree of
-the fragment is a sentence of the Fortran 2008 expression grammar modelled by `P`. -/
-theorem C02_standard_partial (e ne : Expr) (hf : opFrag e = true) (hw : wf .expr e = true)
-    (hx : exposed .top e = false) (hn : norm e = some ne) : ∃ e', ParsesTo (render .narrow .top e) e' :=
-  ⟨ne, C02_roundtrip_partial e ne hf hw hx hn⟩
+/-- With canonical literals the re-read tree is structurally the original tree. -/
+theorem C02_roundtrip_exact_partial (e : Expr) (hw : wf .expr e = true)
+    (hx : exposed .top e = false) (hc : litsCanonical e = true) :
+    parse (render .narrow .top e) = some e :=
+  C02_roundtrip_partial e e hw hx (norm_of_canonical e hc)
+
+/-- **No two adjacent operators** where the standard does not allow it (never a sign after
+`+ - * / **`, `.NOT.` only after a logical operator). -/
+theorem C02_no_bad_adjacent (e : Expr) (hw : wf .expr e = true) (hx : exposed .top e = false) :
+    noBadAdj (render .narrow .top e) = true := by
+  rw [render_narrow_eq_wide e .top hx]
+  exact noBadAdj_wide e hw .top trivial
+
+/-- Standard conformance: the written text is a sentence of the Fortran 2008 expression grammar
+modelled by `P` and has no forbidden operator adjacency. -/
+theorem C02_standard_partial (e ne : Expr) (hw : wf .expr e = true)
+    (hx : exposed .top e = false) (hn : norm e = some ne) :
+    (∃ e', parse (render .narrow .top e) = some e') ∧ noBadAdj (render .narrow .top e) = true :=
+  ⟨⟨ne, C02_roundtrip_partial e ne hw hx hn⟩, C02_no_bad_adjacent e hw hx⟩
 
 /-- The same holds inside any operand position, e.g. under a further operator: grouping is kept. -/
-theorem C02_roundtrip_in_context (e ne : Expr) (c : Ctx) (hc : c.ok) (hf : opFrag e = true)
+theorem C02_roundtrip_in_context (e ne : Expr) (c : Ctx) (hc : c.ok)
     (hw : wf .expr e = true) (hx : exposed c e = false) (hn : norm e = some ne) (R : List Tok)
     (hR : Follow (need c) R) :
     ∃ f0, ∀ f, f0 ≤ f → P f (.expr (need c)) (render .narrow c e ++ R) = some (ne, R) := by
   rw [render_narrow_eq_wide e c hx]
-  exact ((good_render e hf hw ne hn c hc).1 (need c) R
+  exact ((good_render e hw ne hn c hc).1 (need c) R
     (need_le_lvl c hc e (wf_not_rem hw)) hR).all_fuel
 
-/-- The wide (not applied) rule needs no side condition: it is the full repair on the fragment. -/
-theorem C02_roundtrip_wide_partial (e ne : Expr) (hf : opFrag e = true) (hw : wf .expr e = true)
-    (hn : norm e = some ne) : ParsesTo (render .wide .top e) ne := by
-  have g := good_render e hf hw ne hn .top trivial
+/-- The wide (not applied) rule needs no side condition: it is the full repair. -/
+theorem C02_roundtrip_wide (e ne : Expr) (hw : wf .expr e = true)
+    (hn : norm e = some ne) : parse (render .wide .top e) = some ne := by
+  have g := good_render e hw ne hn .top trivial
   have := g.1 0 [] (Nat.zero_le _) trivial
   simp only [List.append_nil] at this
-  exact this.all_fuel
+  exact parse_of_parsesTo this.all_fuel
+
+theorem C02_no_bad_adjacent_wide (e : Expr) (hw : wf .expr e = true) :
+    noBadAdj (render .wide .top e) = true :=
+  noBadAdj_wide e hw .top trivial
 
 /-- The excluded class is exactly "a `+`/`-` sign (unary operation or signed literal) directly
 below `*` or `/`" at a position where the narrow patch keeps the pinned output. -/
@@ -128,12 +167,22 @@ theorem C02_exposed_class (lit : Bool) (u : UnOp) (c : Ctx)
 /-! non-vacuity and sanity evaluations (the concrete `parse` with its fixed fuel) -/
 def exGp : Expr := .bin .add va (.bin .mul (.un .minus vb) vc)          -- a + (-b)*c
 def exLitMul : Expr := .bin .mul va (.lit (.real .minus 7 true false .undef))   -- a * Literal("-1.0")
-example : opFrag exPow = true ∧ wf .expr exPow = true ∧ exposed .top exPow = false ∧
+example : wf .expr exPow = true ∧ exposed .top exPow = false ∧
     litsCanonical exPow = true := by decide
-example : opFrag exGp = true ∧ wf .expr exGp = true ∧ exposed .top exGp = false ∧
+example : wf .expr exGp = true ∧ exposed .top exGp = false ∧
     litsCanonical exGp = true := by decide
 example : exposed .top exUnary = true ∧ exposed .top exLead = true ∧ exposed .top exLitMul = true := by decide
-example : opFrag exNegLit = true ∧ wf .expr exNegLit = true ∧ norm exNegLit ≠ none := by decide
+example : wf .expr exNegLit = true ∧ norm exNegLit ≠ none := by decide
+/-- `arr(i + 1, -j) ** st%h(k)%c`, `MAX(a, -b, kind = c) * (-d)` -/
+def exAccess : Expr :=
+  .bin .pow (.part 10 (.cons none (.bin .add va (.lit (.int .none 1 .undef))) (.cons none (.un .minus vb) .nil)) .nil)
+    (.part 11 .nil (.part 12 (.cons none vc .nil) (.part 13 .nil .nil)))
+def exCall : Expr :=
+  .bin .div (.call 20 (.cons none va (.cons none (.un .minus vb) (.cons (some 21) vc .nil)))) (.un .minus vd)
+example : wf .expr exAccess = true ∧ exposed .top exAccess = false ∧ litsCanonical exAccess = true := by decide
+example : wf .expr exCall = true ∧ exposed .top exCall = false ∧ litsCanonical exCall = true := by decide
+example : parse (render .narrow .top exAccess) = some exAccess := by decide
+example : parse (render .narrow .top exCall) = some exCall := by decide
 example : parse (render .narrow .top exGp) = some exGp := by decide
 example : parse (render .wide .top exUnary) = some exUnary := by decide
 example : parse (render .wide .top exLead) = some exLead := by decide
